@@ -15,9 +15,27 @@ import (
 )
 
 // runHistory executes one history (generated on the fly or replayed) and writes its log
+// replayMeta: the HIST line of the history being replayed (its settings are restored)
+var replayMeta string
+
 func runHistory(w *bufio.Writer, id int, profile string, seed uint64, nOps int, replay []Op) {
 	e := NewEnv()
-	fmt.Fprintf(w, "HIST id=%d gen=%s seed=%d switch=%d t0=%d\n", id, profile, seed, b2i(keeper.EnableAddAllowedBidder), T0)
+	// every eleventh generated history runs as a testing build does: the switch that enables MsgAddAllowedBidder is
+	// turned on for its duration (forced=1 tells the driver that this is the harness's doing, not the binary's)
+	forced := 0
+	if replay == nil && id%11 == 5 && !keeper.EnableAddAllowedBidder {
+		forced = 1
+	}
+	for _, f := range strings.Fields(replayMeta) {
+		if f == "forced=1" {
+			forced = 1
+		}
+	}
+	if forced == 1 {
+		keeper.EnableAddAllowedBidder = true
+		defer func() { keeper.EnableAddAllowedBidder = false }()
+	}
+	fmt.Fprintf(w, "HIST id=%d gen=%s seed=%d switch=%d t0=%d forced=%d\n", id, profile, seed, b2i(keeper.EnableAddAllowedBidder), T0, forced)
 	for _, l := range e.Dump() {
 		fmt.Fprintln(w, l)
 	}
@@ -25,6 +43,13 @@ func runHistory(w *bufio.Writer, id int, profile string, seed uint64, nOps int, 
 	var g *Gen
 	if replay == nil {
 		g = NewGen(seed, e, profile)
+		if forced == 1 {
+			g.w = map[string]int{}
+			for k, v := range profiles[profile] {
+				g.w[k] = v
+			}
+			g.w["ADDMSG"] = 14
+		}
 	}
 	for i := 0; ; i++ {
 		var o Op
@@ -153,7 +178,9 @@ func main() {
 					extremeFunds = true
 				}
 			}
+			replayMeta = names[i]
 			runHistory(w, *first+i, "replay", 0, 0, h)
+			replayMeta = ""
 			extremeFunds = false
 		}
 		return
